@@ -32,6 +32,14 @@ def _fam(fam, n, flips=()):
 def gen_case(seed, i):
     rng = random.Random(stable_hash(seed, ID, i))
     base = gen.gen_cfg(rng, small=True, allow_cache=False)
+    # a quarter of the histories keep ONE transform for all steps (a cache entry made with a transform
+    # can only be hit by a later run with the same transform); half of those over printable content, on
+    # which some transforms fail for some files only
+    text = False
+    if rng.random() < 0.25:
+        t = rng.choice([x for x in xform.TRANSFORMS if "--in-place" not in x[1] and "$OUT" not in x[0]])
+        base = dict(base, transform=t[0], transform_flags=list(t[1]))
+        text = rng.random() < 0.5
     b = base["bounds"]
     n_long = max(b["suffix_threshold"] + b["suffix"] + 40, 3 * b["buf"], 200)
     w = World()
@@ -43,7 +51,7 @@ def gen_case(seed, i):
             flips = [] if k < 2 or n < 20 else [[n // 2 + k, k]]
             p = "r/%s/f%dk%d" % (rng.choice(["a", "b"]), f, k)
             # modification times with a millisecond part, in the same second in which the history starts
-            w.add_file(p, _fam(f + 1, n, flips), mt=T0_NS + (3 * f + k) * 5 * 10**6 + rng.choice([0, 1, 999]) * 10**3)
+            w.add_file(p, dict(_fam(f + 1, n, flips), **({"text": 1} if text else {})), mt=T0_NS + (3 * f + k) * 5 * 10**6 + rng.choice([0, 1, 999]) * 10**3)
             files.append(p)
     steps = []
     live = list(files)
